@@ -1,8 +1,9 @@
 """C17 — notifier: Lean model `Nt` (Model/Notifier.lean), theorems Props/C17.lean.
 
 Correspondence: stateful protocol over 3 notifiers (0 normal recovery handler, 1 a handler that itself panics, 2 nil
-handler) and 128 shared targets (0 plain, 1 batch, 2 plain+panicking, 3 batch+panicking, 4 batch, 6 re-entrant: performs
-an armed Register/Unregister/SetEnabled/Reset/RegisterFromNotifier from inside HandleNotification; ids >= 5: batch iff
+handler) and 128 shared targets (0 plain, 1 batch, 2 plain+panicking, 3 batch+panicking, 4 batch, 6 and 10 re-entrant:
+they perform an armed operation -- any of Register/Unregister/SetEnabled/Reset/RegisterFromNotifier/Notify/
+NotifyWithData/StartBatch/EndBatch -- from inside HandleNotification (6, 10) or BatchMode (10); ids >= 5: batch iff
 id%3 == 1, panicking iff id%5 == 2; panic values cycle through string / error / runtime error / typed-nil pointer / nil /
 struct / errs.Error).  After every operation both sides print the calls the targets received (canonical: the
 harness checks non-increasing priority on the raw delivery sequence against its own name->target->priority table and
@@ -10,7 +11,10 @@ prints `order-ok|order-bad`, then the calls sorted by priority descending / targ
 the recovery handler got, BatchLevel() and Enabled() (area `notifier`, black box).  Area `nwb` is the same protocol with
 `dump` lines that compare the three internal maps (white-box accessor injected with -overlay) with the model's
 association lists: that observable is model detail (`model_only`) and is kept in a separate stream so that it cannot
-mask a behavioural difference.  The `race` area is an implementation-side oracle run under the -race build."""
+mask a behavioural difference.  The `race` area is the concurrent oracle under the -race build: its judge is the
+conclusion of C17.concurrent_registry_linearizable / notify_delivers_snapshot / batch_delivers_snapshot (one order of
+all concurrent calls must explain every Notify's delivered list, every BatchMode broadcast, every query result and the
+final maps), plus BatchMode(true)/(false) balance per target, no duplicate delivery, one report per panic."""
 
 OVERLAY = {"notifier/zz_verif_dump.go": "c17_notifier_dump.go"}
 
@@ -21,20 +25,27 @@ def run(ctx):
         "(delivery order is compared only up to permutations within equal priority, batch calls as a sorted list)",
         "sort.Slice is modelled by List.mergeSort on the priority; C17.notify_priority_order / notify_targets hold for "
         "every sorted permutation, which is what the harness' order-ok check plus the sorted multiset compares",
-        "target identity = small integer; BatchTarget capability is a fixed table shared by harness and model "
-        "(Nt.batchCapable); which targets panic is a parameter of the model (`pan`)",
+        "target identity = small integer; BatchTarget capability (Nt.batchCapable) and the recovery handler a notifier "
+        "was created with (Nt.handlerKind: good / panicking / nil) are fixed tables shared by harness and model; which "
+        "targets panic is a parameter of the model (`pan`); delivery loops are executed in a propagating-panic "
+        "semantics (Nt.Run / frame / recovery / loopX), C17.panic_does_not_stop_delivery",
         "name strings are byte lists; map keys are the lists of non-empty dot-separated segments "
         "(C17.normalize_join_roundtrip: joining with single dots and re-splitting gives the same segments)",
     ]
     ctx.assumptions += [
-        "sequential semantics: every exported method is modelled as one atomic step (all accesses to the maps are under "
-        "the notifier's RWMutex; the model does not prove this).  The clause `concurrent use is free of data races` is "
-        "NOT proved: it is supported only by the multi-goroutine stress run of this check under `go build -race` "
-        "(any race report, duplicate delivery, escaped panic or deadlock fails the check)",
-        "re-entrancy is transcribed only for state-changing calls (Register, Unregister, SetEnabled, Reset, "
-        "RegisterFromNotifier) made by a target from inside HandleNotification: NotifyWithData has computed the delivery "
-        "list and released its lock before the first call, so the driver applies the call right after the notification "
-        "(Nt.step composed twice); nested Notify/StartBatch/EndBatch from inside a callback are not exercised",
+        "concurrent use: the LOGICAL half of `free of data races` is proved on Model/NotifierConc.lean (one notifier, its "
+        "mutex, any number of goroutines, any scheduler; every method = lock brackets with one micro-step per loop "
+        "iteration + an unlocked phase on goroutine-local data): the registry is linearizable, every concurrent Notify "
+        "delivers the sequential model's list for the registry state at its linearization point, callback steps touch no "
+        "shared state and commute with everything, and without the mutex there is a non-linearizable schedule.  NOT "
+        "proved: that the Go code touches the maps only inside the brackets and never writes a snapshot's backing array "
+        "after handing it out (memory-level race freedom) -- that half is observed by the `-race` stress run of this "
+        "check; RLock brackets are modelled as exclusive (they do not write: NtC.rrun_read_pure); the model is per "
+        "notifier (RegisterFromNotifier = copyOut on the source + mergeIn on the destination, two mutexes)",
+        "re-entrancy (a target calling back into a notifier from HandleNotification/BatchMode) is transcribed by the "
+        "driver, not by a theorem: every method finishes its registry work and unlocks before the first callback and "
+        "iterates over a local snapshot, so the nested call is Nt.step applied to the state the outer call left, its "
+        "callbacks are made in between; a lock held during delivery shows as a runtime deadlock abort of that line",
         "errs.Recovery calls the handler exactly once per panic (C13 territory); the harness counts the handler calls",
         "batchLevel does not overflow int",
     ]
@@ -42,8 +53,8 @@ def run(ctx):
     ctx.harness("./cmd/c17", overlay=OVERLAY)
     th = ("C17.notify_targets / notify_priority_order / no_textual_prefix / "
           "disabled_or_unregistered_or_reset_silent / merge_spec / batch_nesting / maps_consistent / "
-          "panic_does_not_stop_delivery are theorems about the model Nt.step; the implementation differs "
-          "from that model on this history")
+          "panic_does_not_stop_delivery / panic_does_not_stop_batch / panic_step are theorems about the model Nt.step; "
+          "the implementation differs from that model on this history")
     # black-box protocol: only calls received by targets, recovery reports, BatchLevel(), Enabled()
     ctx.diff(area="notifier", driver="drv_c17", n={"quick": 100000, "thorough": 3000000}, stateful=True,
              trivial=lambda l, o: o.startswith("order-ok | rec=0"), tagger=tagger, theorem=th, timeout=240)
@@ -55,9 +66,11 @@ def run(ctx):
              theorem="C17.maps_consistent is a theorem about the model's three association lists; the implementation's "
                      "maps differ from them on this history")
     if ctx.harness("./cmd/c17", name="race", race=True, overlay=OVERLAY):
-        ctx.impl_oracle("race", {"quick": 24, "thorough": 400}, name="race",
-                        label="goroutines registering/notifying/merging/batching concurrently under -race; "
-                              "race report (halt_on_error), duplicate delivery, escaped panic, deadlock = FAIL",
+        ctx.impl_oracle("race", {"quick": 16, "thorough": 300}, name="race",
+                        label="goroutines calling every method concurrently under -race; judge = conclusion of "
+                              "C17.concurrent_registry_linearizable / notify_delivers_snapshot (a linearization must "
+                              "explain all observations and the final maps), BatchMode balance, no duplicate delivery, "
+                              "one report per panic; race report (halt_on_error), escaped panic, deadlock = FAIL",
                         extra_env={"GORACE": "halt_on_error=1"}, timeout=600)
 
 
